@@ -88,10 +88,140 @@ let ll_cmd cmd line =
    | _ -> ok := false; print_endline ("? " ^ line));
   if !ok then dump ()
 
+(* ------------------------------------------------------------------ composed line (h_cs101): master x channel x slaves.
+   The stations are the extracted step functions; the composition (who hears whom, loss/duplication by global
+   frame index, the bounded CS101 queues = fifo_enqueue, the ASDU-header length test of the CS101 layers) is here. *)
+type nslave = { mutable sst : station; mutable srx : z list; mutable sq1 : z list list; mutable sq2 : z list list }
+let net_on = ref false
+let balanced = ref false
+let mst = ref NoSt
+let mrx = ref ([] : z list)
+let mq = ref ([] : z list list)
+let nsl = ref ([||] : nslave array)
+let q1size = ref 10 and q2size = ref 10 and mqsize = ref 10
+let frame_no = ref 0
+let lose = Hashtbl.create 64 and dupf = Hashtbl.create 64
+let saddr i = if iz !c.alen = 2 then 0x100 * (i + 1) + 11 + i else 11 + i
+let asdu_hdr = 6
+
+let net_cfg line =
+  let l = kvs line in
+  net_on := true; st := NoSt;
+  v := variant_of (kvstr l "fix" "");
+  balanced := kvstr l "mode" "unb" = "bal";
+  c := { alen = zi (kv l "al" 1); single_ack = kv l "sc" 0 <> 0; t_ack = zi (kv l "tack" 200); t_rep = zi (kv l "trep" 1000); t_ls = zi (kv l "tls" 5000) };
+  now := kv l "t" 1000; mrx := []; mq := []; frame_no := 0; Hashtbl.reset lose; Hashtbl.reset dupf;
+  q1size := kv l "q1" 10; q2size := kv l "q2" 10; mqsize := kv l "mq" 10;
+  let n = if !balanced then 1 else min 3 (kv l "slaves" 1) in
+  let idle = kv l "idle" 100000 in
+  nsl := Array.init n (fun i ->
+    { sst = (if !balanced then Bal (bal_init (zi (saddr i)) (zi 1) (zi idle) false true) else Su (su_init !v (zi (saddr i)) (zi idle)));
+      srx = []; sq1 = []; sq2 = [] });
+  mst := if !balanced then Bal (bal_init (zi 1) (zi (saddr 0)) (zi idle) true true)
+         else Up (pu_init (List.init n (fun i -> zi (saddr i))))
+
+let deliver who f =
+  incr frame_no;
+  let lost = Hashtbl.mem lose !frame_no and dup = Hashtbl.mem dupf !frame_no in
+  Printf.printf "tx %s %d %s%s\n" (if who < 0 then "m" else Printf.sprintf "s%d" (who + 1)) !frame_no (hex_of_bytes f)
+    (if lost then " lost" else if dup then " dup" else "");
+  if not lost then
+    for _ = 1 to (if dup then 2 else 1) do
+      if who < 0 then Array.iter (fun s -> s.srx <- s.srx @ f) !nsl else mrx := !mrx @ f
+    done
+
+let asdu_or_null d = if List.length d < asdu_hdr then None else Some d
+
+let net_step who =
+  if who < 0 then begin
+    let outs = (match !mst with
+      | Bal b ->
+          let b0 = bal_with b b.b_p b.b_s !mq in
+          let ((b', rest), o) = bal_run !v !c (zi !now) b0 !mrx in mst := Bal b'; mrx := rest; mq := b'.b_q; o
+      | Up p -> let ((p', rest), o) = pu_run !v !c (zi !now) p !mrx in mst := Up p'; mrx := rest; o
+      | _ -> []) in
+    let txs = ref [] in
+    List.iter (fun o -> match o with
+      | OTx f -> txs := f :: !txs
+      | OInd (_, d) -> (match asdu_or_null d with
+          | Some d -> Printf.printf "mdeliver a=0 %s\n" (hex_of_bytes d)
+          | None -> if not !v.fd then print_endline "mdeliver a=0 NULL")
+      | OUd (a, d) -> (match asdu_or_null d with
+          | Some d -> Printf.printf "mdeliver a=%d %s\n" (iz a) (hex_of_bytes d)
+          | None -> if not !v.fd then Printf.printf "mdeliver a=%d NULL\n" (iz a))
+      | OLs (a, s) -> Printf.printf "mls a=%d %d\n" (iz a) (iz s)
+      | _ -> ()) outs;
+    List.iter (deliver (-1)) (List.rev !txs)
+  end else begin
+    let s = !nsl.(who) in
+    let outs = (match s.sst with
+      | Bal b ->
+          let b0 = bal_with b b.b_p b.b_s (s.sq1 @ s.sq2) in
+          let n0 = List.length b0.b_q in
+          let ((b', rest), o) = bal_run !v !c (zi !now) b0 s.srx in
+          s.sst <- Bal b'; s.srx <- rest;
+          if List.length b'.b_q < n0 then (match s.sq1 with _ :: t -> s.sq1 <- t | [] -> (match s.sq2 with _ :: t -> s.sq2 <- t | [] -> ()));
+          o
+      | Su u ->
+          let u0 = su_with_q u s.sq1 s.sq2 in
+          let ((u', rest), o) = su_run !v !c (zi !now) u0 s.srx in
+          s.sst <- Su u'; s.srx <- rest; s.sq1 <- u'.su_q1; s.sq2 <- u'.su_q2; o
+      | _ -> []) in
+    let txs = ref [] in
+    List.iter (fun o -> match o with
+      | OTx f -> txs := f :: !txs
+      | OInd (_, d) -> (match asdu_or_null d with Some d -> Printf.printf "sdeliver s%d %s\n" (who + 1) (hex_of_bytes d) | None -> ())
+      | OLs (_, x) -> Printf.printf "sls s%d %d\n" (who + 1) (iz x)
+      | _ -> ()) outs;
+    List.iter (deliver who) (List.rev !txs)
+  end
+
+let station_of tok = if tok = "m" then -1 else (try let i = int_of_string (String.sub tok 1 (String.length tok - 1)) - 1 in
+                                                   if i >= 0 && i < Array.length !nsl then i else -2 with _ -> -2)
+let net_cmd cmd line =
+  let w = words line in
+  match cmd with
+  | "lose" | "dupf" -> List.iter (fun t -> Hashtbl.replace (if cmd = "lose" then lose else dupf) (int_of_string t) ()) (List.tl w)
+  | "tick" -> now := !now + int_of_string (List.nth w 1)
+  | _ ->
+    let who = station_of (try List.nth w 1 with _ -> "") in
+    let hex () = bytes_of_hex (try List.nth w 2 with _ -> "-") in
+    if who = -2 then print_endline ("? " ^ line) else
+    (match cmd with
+     | "step" -> net_step who
+     | ("enq1" | "enq2") when who >= 0 ->
+         let d = hex () in
+         if List.length d < asdu_hdr then print_endline "? bad asdu" else begin
+           let s = !nsl.(who) in
+           let c1 = cmd = "enq1" in
+           let size = if c1 then !q1size else !q2size in
+           let cur = if c1 then s.sq1 else s.sq2 in
+           Printf.printf "enq s%d c=%d full=%d\n" (who + 1) (if c1 then 1 else 2) (b2i (List.length cur = size));
+           let nq = fifo_enqueue (zi size) cur d in
+           if c1 then s.sq1 <- nq else s.sq2 <- nq
+         end
+     | "msend" when who >= 0 ->
+         let d = hex () in
+         if List.length d < asdu_hdr then print_endline "? bad asdu" else begin
+           (match !mst with
+            | Bal _ -> mq := fifo_enqueue (zi !mqsize) !mq d; Printf.printf "msend s%d ok=1\n" (who + 1)
+            | Up p ->
+                let a = zi (saddr who) in
+                let ready = List.exists (fun s -> s.sc_addr = a && not (s.sc_r1 || s.sc_r2 || s.sc_has)) p.pu_slaves in
+                if ready then (let (p', _) = pu_send_confirmed p a d in mst := Up p');
+                Printf.printf "msend s%d ok=%d\n" (who + 1) (b2i ready)
+            | _ -> ())
+         end
+     | "poll" when who >= 0 -> (match !mst with Up p -> let (p', _) = pu_request p (zi (saddr who)) false in mst := Up p' | _ -> ())
+     | "inject" -> if who < 0 then mrx := !mrx @ hex () else !nsl.(who).srx <- !nsl.(who).srx @ hex ()
+     | _ -> print_endline ("? " ^ line))
+
 let () =
   iter_lines (fun line ->
     match words line with
     | "---" :: _ -> print_endline line
     | [] -> ()
-    | "cfg" :: _ -> ll_cfg line
-    | cmd :: _ -> if !st = NoSt then print_endline "? no station" else ll_cmd cmd line)
+    | "cfg" :: _ -> if List.mem_assoc "mode" (kvs line) then net_cfg line else (net_on := false; ll_cfg line)
+    | cmd :: _ ->
+        if !net_on then net_cmd cmd line
+        else if !st = NoSt then print_endline "? no station" else ll_cmd cmd line)
